@@ -1,4 +1,5 @@
 import AFProofs.Lemmas.CompSpec
+import AFProofs.Lemmas.NameOrd
 import AFModel.FloatOps
 
 /-!
@@ -444,5 +445,17 @@ theorem vector_at_every_advertised_path [Inhabited V] (ops : Ops V) (t : Node V)
     (hplace : (p, (uniqueIds t)[i]'hi) ∈ walk t) :
     (instFromVector ops t v).at p = some (.num (v[i]'(hl ▸ hi))) :=
   vector_placement ops t v hw hl i hi p (walk_sub_leaves t hp p _ hplace)
+
+end AF.C01
+
+namespace AF.C01
+open AF
+
+/-- the sorting theorem instantiated with the order the code and the driver actually use
+(`_position_key`: prefix, then numeric position): its hypotheses are theorems, not assumptions -/
+theorem tuple_members_sorted_by_position (ρ : Nat → Inst Float) (attrs : List (String × Node Float)) :
+    ∃ ms, instW floatOps ρ (.tuple attrs) = .tup ms ∧ ms.Perm (instTupleAttrs floatOps ρ attrs) ∧
+      ms.Pairwise (fun a b => posLe a.1 b.1 = true) :=
+  tuple_members_sorted floatOps ρ attrs posLe_total posLe_trans
 
 end AF.C01
